@@ -319,6 +319,11 @@ class Lab:
             return ("client-loader", f"Service(sid) raises after the crash: {type(e).__name__}: {e}")
         st = svc.get_current_service_state()
         if not cs.is_config_created(st):
+            if getattr(self, "interrupted_step", "create") not in ("create", "create-named"):
+                # the service existed before the interrupted step: a state in which the client no longer knows it is
+                # neither "before" nor "after" that step (key, local index or upload flags are lost with it)
+                return ("service-lost", f"the client no longer knows the service it had created before the interrupted "
+                                        f"step ({self.interrupted_step}): flags {st:05b}")
             # the crashed create-service never completed under this sid: the user creates a service again
             try:
                 sid = S().handle_create_config(copy.deepcopy(self.cfg))
@@ -395,6 +400,7 @@ async def amain(spec, acc, ctx):
     scheme, component, step = spec["scheme"], spec["component"], spec["step"]
     short = gen.SHORT[scheme]
     lab = Lab(acc, ctx, scheme)
+    lab.interrupted_step = step if component == "client" else "server-" + step
     lab.server = await wh.Server().start()
     try:
         await lab.build_templates()
